@@ -211,9 +211,57 @@ def r17d(ctx, rep, cr):
     rep.floor('R17d', 'decision closures in merge', n, 1)
 
 
+def r17e(ctx, rep, cr):
+    rep.rule('R17e', 'a live view is only written through the order: an LWWMembershipState method that inserts a whole state into `states` '
+                     'without consulting GossipNodeState::supersedes (update_local) is called only on a view created in the same function '
+                     '(LWWMembershipState::new — the constructor seeding the local node). Called on a live view it overwrites whatever is '
+                     'recorded: a refutation written with the node\'s in-memory counter lowers the recorded incarnation when a peer already '
+                     'told this node a higher one, and the same two messages in the other order leave a different view')
+    writers = []
+    for name, f in sorted(cr.fns.items()):
+        if not name.startswith(LW + '::') or '{closure' in name:
+            continue
+        defs = A.Defs(f)
+        ins = []
+        for c in A.calls_to(f, ('re', r'HashMap::<K, V, S(, A)?>::insert$')):
+            a = c.arg_local(0)
+            if a is None:
+                continue
+            fs, _ = A.origin_fields(f, a, defs)
+            fs = A.place_fields(c.args[0][1]) + fs
+            if any(x == LW + '.states' for x in fs):
+                ins.append(c)
+        if ins and not any(A.calls_to(h, ('re', r'GossipNodeState::supersedes$')) for h in A.with_closures(cr.fns, name)):
+            writers.append(name)
+    rep.floor('R17e', 'unconditional whole-state writers', len(writers), 1)
+    n = 0
+    for name, f in sorted(cr.fns.items()):
+        if name.startswith(LW + '::'):
+            continue
+        defs = None
+        for k, c in enumerate(c_ for c_ in A.calls(f) if c_.resolved in writers):
+            n += 1
+            rep.analysed(f)
+            defs = defs or A.Defs(f)
+            fresh = False
+            if c.args and c.args[0][0] != 'k':
+                sl = A.backward_slice(f, [c.args[0]], defs)
+                fresh = any(x.endswith('LWWMembershipState::new') or x.endswith('LWWMembershipState::with_lamport_time') or
+                            re.search(r'LWWMembershipState as (std::)?default::Default>::default$', x) for x in sl.calls) and \
+                    not any(x.startswith(G) and '.' in x for x in sl.fields)
+            if fresh:
+                rep.holds('R17e', f, '%s#%d' % (lib.short(c.resolved), k), 'on a view created in this function')
+            else:
+                rep.violation('R17e', f, 'unconditional-write-into-live-view', f.loc(c.line),
+                              '%s is called on a view that is already live: it replaces the recorded state without comparing incarnation / '
+                              'timestamp, so the view can move backwards and depends on message order' % lib.short(c.resolved))
+    rep.floor('R17e', 'call sites of unconditional writers', n, 1)
+
+
 def run(ctx, rep):
     cr = ctx.crate('tensor_chain')
     r17a(ctx, rep, cr)
     r17b(ctx, rep, cr)
     r17c(ctx, rep, cr)
     r17d(ctx, rep, cr)
+    r17e(ctx, rep, cr)
